@@ -119,6 +119,7 @@ class Ctx:
         results = {}
         errors = {}
         sends = []
+        psegments = []     # loop-body path segments (back-edge states) of the parser-side run
         pushes = []
 
         def call_ord(func, bi, suffix):
@@ -139,13 +140,21 @@ class Ctx:
                 sends.append(dict(func=fr.func, ord=call_ord(fr.func, bi, '::send'), arg=repr(v), known=known, nonempty=ne, span=t['span']))
             elif kind == 'decode':
                 callee, args, t = a
-                st_.log(('decode', callee, tuple(args), fr.func, t['span'].get('line')))
+                dst = None
+                if len(args) > 2 and isinstance(args[2], RefV):
+                    try:
+                        dst = eng.read(st_, args[2].path)
+                    except Exception:
+                        dst = None
+                st_.log(('decode', callee, tuple(args), fr.func, t['span'].get('line'), dst))
             elif kind == 'decoder-new':
                 callee, args, t = a
                 st_.log(('decoder-new', callee, fr.func, t['span'].get('line')))
             elif kind == 'call':
                 callee, args, t = a
                 st_.log(('localcall', callee, tuple(args), fr.func, t['span'].get('line')))
+            elif kind == 'backedge':
+                psegments.append(dict(func=fr.func, head=bi, st=st_))
             return None
 
         def event_hook(c, ev):
@@ -222,6 +231,6 @@ class Ctx:
             eng.hooks = []
         eng.event_hook = None
         self._parser_run = dict(engine=eng, results=results, errors=errors, arrivals=arrivals, yield_sites=ys,
-                                sends=sends, pushes=pushes)
+                                sends=sends, pushes=pushes, segments=psegments)
         return self._parser_run
 
